@@ -184,7 +184,8 @@ def handleMX (ins outs : List J) : Verdict :=
        | some v, some c =>
          let range := v.all fun y => decide (-(1 / 1000000000000) ≤ y ∧ y ≤ 1 + 1 / 1000000000000)
          let mono := (v.zip (v.drop 1)).all fun (p, q) => p ≤ q + 1 / 1000000000
-         let comp := (v.zip c).all fun (p, q) => closeR (p + q) 1 (1 / 1000000000) 0
+         -- complement identity wherever 1-x is itself a float (the harness evaluates I_(1-x)(b,a) at float(1-x))
+         let comp := (xs.zip (v.zip c)).all fun (x, p, q) => roundF64 (1 - x) != 1 - x || closeR (p + q) 1 (1 / 1000000000) 0
          let ends := (xs.zip v).all fun (x, y) => (x != 0 || y == 0) && (x != 1 || y == 1)
          let slice := (xs.zip v).filterMap fun (x, y) => (betaRef x a b).map fun e =>
            ("betainc", inTol (.fin y) e (1 / 1000000000) 0, s!"x={ratStr x} a={ratStr a} b={ratStr b} go={ratStr y} reference {iStr e}")
